@@ -106,7 +106,7 @@ namespace SvgObj
 def isReWs (c : Char) : Bool :=
   c == ' ' || c == '\t' || c == '\n' || c == '\r' || c == '\x0b' || c == '\x0c' || (c.toNat ≥ 0x1c && c.toNat ≤ 0x1f)
 
-/-- `^\s*url[(]\s*(['"]?)#([^)'"\s]+)\1\s*[)](?:\s.*)?$` with DOTALL: optional white space and matching quotes around the
+/-- `^\s*url[(]\s*(['"]?)#([^)'"\s]+)\1\s*[)].*$` with DOTALL: optional white space and matching quotes around the
     reference, any id without `)`, quotes or white space, an optional fallback after the closing parenthesis -/
 def idOfTarget (url : String) : Except PyErr String :=
   let cs := url.toList.dropWhile isReWs
@@ -131,10 +131,7 @@ def idOfTarget (url : String) : Except PyErr String :=
     | none => .error .valueError
     | some r5 =>
       match r5.dropWhile isReWs with
-      | ')' :: r6 =>
-        (match r6 with
-         | [] => .ok (String.ofList i)
-         | c :: _ => if isReWs c then .ok (String.ofList i) else .error .valueError)
+      | ')' :: _ => .ok (String.ofList i)
       | _ => .error .valueError
   | _ => .error .valueError
 
